@@ -11,8 +11,8 @@ from .common import LEAN, SRC, VERIF, add_failure, bump, new_outcome
 _add_failure = add_failure
 
 PROP = "C17"
-PROPS_FILES = ["CogentModel/Props/C17.lean"]
-LEAN_TARGETS = ["CogentModel.Props.C17"]
+PROPS_FILES = ["CogentModel/Props/C17.lean", "CogentModel/Props/C17X.lean"]
+LEAN_TARGETS = ["CogentModel.Props.C17", "CogentModel.Props.C17X"]
 DRIVER = "drv_c17"
 TRUSTED = [
     "translator/sql2lean.py (SQL f-strings of _matching_conditions -> Gen/C17Sql.lean); self-tested each run against "
@@ -21,6 +21,11 @@ TRUSTED = [
     "normalisation, update/union/subset, GFF row merging and block loading, GenBank location flattening), tied by "
     "correspondence on BasicAnnotationDb / GffAnnotationDb / GenbankAnnotationDb",
     "sqlite3 itself (storage, =, LIKE, IN, AND/OR evaluation) is modelled, not verified",
+    "translator/c17_query2lean.py (single decision expressions of get_features_matching / get_records_matching / subset / "
+    "_get_records_matching / num_matches / GenbankAnnotationDb.get_feature_children / get_feature_parent -> Gen/C17Query.lean); "
+    "every generated definition is proved equal to its plain reading in Props/C17X.lean and used by Model/AnnotDbX.lean",
+    "hand-written extension Model/AnnotDbX.lean (rows without location, on_alignment, per-table arguments, GenBank add_records, "
+    "children / parent), tied by the xq / gbadd / family correspondence",
 ]
 ASSUMPTIONS = [
     "records have non-empty extent (start < stop) and query windows are proper (start < stop); degenerate rows are "
@@ -38,9 +43,19 @@ ASSUMPTIONS = [
     "(glob) loads the generated IDs are unique across the files as well (the same ID in two files is not probed)",
     "num_matches is compared with the scan for every argument subset incl. attributes (substring search, as in the "
     "two query methods); the model's numMatches mirrors the code (attributes compared with `=`)",
+    "on_alignment=True selects the alignment features only, on_alignment=False everything that is not one (loaded rows "
+    "included), not passing it everything; user rows always store 0 / 1 (add_feature)",
+    "a GenBank feature whose location has no usable coordinates (`a^b`, remote accession, `(a.b)..c`) denotes a record "
+    "without spans and without strand; it satisfies no coordinate window and is returned by window-less queries",
+    "GenBank get_feature_children(name, start, stop) = records called `name` (biotype / exclude_biotype respected) lying "
+    "within [start, stop); get_feature_parent = records called `name` whose extent contains [start, stop); the GFF / Basic "
+    "variants (substring match on parent_id) are not checked",
+    "names GenbankAnnotationDb makes up for features without /gene (<type>-<n>) are not compared by the spec-level oracle "
+    "(the gbadd correspondence compares them exactly)",
 ]
 
 GEN_FILE = LEAN / "CogentModel" / "Gen" / "C17Sql.lean"
+GEN_FILE_Q = LEAN / "CogentModel" / "Gen" / "C17Query.lean"
 COLS = ["seqid", "biotype", "name", "strand", "attributes"]
 # identifiers that differ only by letter case, or by '_' vs another character, sit next to each other in every
 # column, so that an `=` turned into LIKE (ASCII case-insensitive, '_' = any character) changes some answer
@@ -71,7 +86,19 @@ def generate(ctx):
         changed = sql2lean.write_if_changed(GEN_FILE, lean)
         if changed:
             ctx.notes.append("Gen/C17Sql.lean was rewritten (source SQL differs from the last generated text)")
-    return [f"sql2lean: {p}" for p in problems]
+    out = [f"sql2lean: {p}" for p in problems]
+    # the small decision expressions around the queries (tables visited, subset bounds, attributes wrapping,
+    # GenBank children / parent coordinate tests)
+    from translator import c17_query2lean
+
+    try:
+        lean, info, problems = c17_query2lean.translate(SRC / "core" / "annotation_db.py")
+    except (c17_query2lean.TranslationError, SyntaxError) as e:
+        return out + [f"c17_query2lean: {e}"]
+    ctx.notes.append(f"c17_query2lean: {json.dumps(info.get('seen', {}))[:900]}")
+    if lean is not None and c17_query2lean.write_if_changed(GEN_FILE_Q, lean):
+        ctx.notes.append("Gen/C17Query.lean was rewritten (source expressions differ from the last generated text)")
+    return out + [f"c17_query2lean: {p}" for p in problems]
 
 
 # --------------------------------------------------------------------------
@@ -396,6 +423,7 @@ def build_case(rng, kind, how, n):
         intent = [_clean(r) for _, fs in groups for r in c17_gb.intent_of(fs)]
         case = dict(kind="genbank", how=how, oa=True, intent=intent)
         if how == "gbft":
+            case["groups_ft"] = [[sid, fs] for sid, fs in groups]
             texts = [[sid, c17_gb.feature_table_text(rng, sid, fs)] for sid, fs in groups]
             if rng.random() < 0.4 and texts:
                 texts = [["multi", "".join(t for _, t in texts)]]
@@ -718,7 +746,7 @@ def run_case(case, scratch, out=None, rng=None, n_windows=60, queries=None, tag=
                 {r[0] for r in got} < {r[0] for r in want} else "plain"
         fails.append(("stored records differ from the records the input denotes", dict(case=case), want, got, f"load:{src}:{cls}"))
         return fails
-    names = [r["name"] for r in stored]
+    names = [r["name"] for r in raw_rows(db, "gff")] if case["how"] == "gff" else []  # user-added rows may share names
     if len(set(names)) != len(names) and case["how"] == "gff":
         fails.append(("two stored GFF records share a name", dict(case=case), "distinct names", sorted(names), f"load:{src}:duplicate-name"))
     if len(db) != len(intent):
@@ -1095,7 +1123,13 @@ def spec_check(ctx, budget):
         "get_features_matching = get_records_matching = num_matches = count_distinct = scan; len. "
         "subset/union/update chains (file-backed or in-memory start, subset to file) with deepcopy/pickle/json/"
         "write+reload after EVERY step vs multiset arithmetic. Several GFF3 files (IDs unique across files, ID-less rows "
-        "in 0..3 of them) loaded through ONE glob pattern vs the concatenation of their record lists. non-trivial = query selecting a non-empty proper "
+        "in 0..3 of them) loaded through ONE glob pattern vs the concatenation of their record lists. GenBank feature tables "
+        "(17 location kinds incl. between-base / remote / one-of = no coordinates, both strands = no strand, complement(join), "
+        "join(complement..), partial ends, one-base, any segment order; with / without /gene; through the parser and through "
+        "GenbankAnnotationDb(data=) / add_records / db=db) x every query kind incl. get_feature_children / get_feature_parent "
+        "and count_distinct x every copy route, subset, union both ways, update, chains. User-added records incl. alignment "
+        "features on top of every kind of db (also union(Basic, Gff)) x every query x on_alignment not passed / False / True. "
+        "non-trivial = query selecting a non-empty proper "
         "subset, or a multiset/chain step on a non-empty db"
     )
     seen_sig = {}
@@ -1504,7 +1538,141 @@ def correspondence(ctx):
 
     # ---- op histories
     _op_histories(ctx, out, rng, scratch)
+    # ---- extended model: rows without location, on_alignment, GenBank record loading, children / parent
+    _x_correspondence(ctx, out, scratch)
     return out
+
+
+def _xrow(r):
+    d = dict(seqid=r["seqid"], biotype=r["biotype"], name=r["name"], strand=r["strand"], attrs=r["attrs"],
+             located=r["start"] is not None, on_alignment=r.get("on_alignment"))
+    if d["located"]:
+        d.update(spans=r["spans"], start=r["start"], stop=r["stop"])
+    return d
+
+
+def xdb_json(db):
+    kind = _kind_of(db)
+    return dict(kind=kind, main=[] if kind == "basic" else [_xrow(r) for r in raw_rows(db, db.table_names[0])],
+                user=[_xrow(r) for r in raw_rows(db, "user")])
+
+
+def _xc(r, rec=True):
+    t = (r["seqid"], r["biotype"], r["name"], r["strand"], _tspans(r.get("spans")), _ob(r.get("on_alignment")))
+    return t + ((_oint(r.get("start")), _oint(r.get("stop"))) if rec else ())
+
+
+def _real_or_raise(fn):
+    try:
+        return fn()
+    except Exception as e:  # noqa: BLE001
+        return f"raised {type(e).__name__}"
+
+
+def _x_correspondence(ctx, out, scratch):
+    from . import c17_gb
+
+    rng = ctx.subrng("corrx")
+    plans = [("genbank", "gbft"), ("genbank", "gbdirect"), ("gff", "gff"), ("basic", "add"), ("genbank", "gb"), ("gff", "add")]
+    reqs, metas = [], []
+    for i in range(ctx.budget(12, 100)):
+        kind, how = plans[i % len(plans)]
+        case = with_user_calls(rng, _one_block(build_case(rng, kind, how, rng.choice([1, 2, 3, 5]))), rng.choice([0, 2, 3]))
+        db = build_db(case, scratch, f"x{i}")
+        recs = [r for t in db.table_names for r in raw_rows(db, t)]
+        qs = with_on_alignment(rng, gen_queries(rng, recs, ctx.budget(6, 20)))
+        for _ in range(6):  # degenerate windows: empty, reversed, a bound of 0
+            a, b = rng.randint(0, 40), rng.randint(0, 40)
+            qs.append(dict(rng.choice(qs), start=rng.choice([0, a, max(a, b)]), stop=rng.choice([0, a, min(a, b)]), allow_partial=rng.random() < 0.5))
+        real = []
+        for q in qs:
+            kw = {k: v for k, v in q.items() if v is not None}
+            one = dict(
+                features=_real_or_raise(lambda: srt(_xc(f, rec=False) for f in db.get_features_matching(**kw))),
+                records=_real_or_raise(lambda: srt(_xc(r) for r in db.get_records_matching(**kw))))
+            if q_mode(q) == "none":
+                one["num"] = _real_or_raise(lambda: db.num_matches(**{k: v for k, v in kw.items() if k != "allow_partial"}))
+            if q.get("on_alignment") is None:
+                one["subset"] = _real_or_raise(lambda: [srt(_xc(r) for r in t) for t in
+                                                          (lambda d: (d["main"], d["user"]))(xdb_json(db.subset(**kw)))])
+            real.append(one)
+        reqs.append(("xq", dict(db=xdb_json(db), qs=[_model_q(q) for q in qs])))
+        metas.append((kind, how, case, qs, real, len(recs)))
+    for (kind, how, case, qs, real, nrec), rep in zip(metas, ctx.driver.batch(reqs)):
+        for q, one, m in zip(qs, real, rep):
+            out["evaluations"] += 1
+            mod = dict(features=m["features"] if isinstance(m["features"], str) else srt(_xc(r, rec=False) for r in m["features"]),
+                       records=m["records"] if isinstance(m["records"], str) else srt(_xc(r) for r in m["records"]))
+            if "num" in one:
+                mod["num"] = m["num"]
+            if "subset" in one:
+                mod["subset"] = [srt(_xc(r) for r in m["subset"]["main"]), srt(_xc(r) for r in m["subset"]["user"])]
+            bump(out, "x_on_alignment", str(q.get("on_alignment")))
+            for k in one:
+                if isinstance(one[k], str):
+                    bump(out, "x_raises", f"{k}:{one[k]}")
+            # on the branches of the open findings (the model mirrors an exception) a repaired tree answers like the
+            # spec's scan: accept that too, nothing else
+            scan_r = srt(_xc(r) for r in m["scan"])
+            alt = dict(features=srt(_xc(r, rec=False) for r in m["scan"]), records=scan_r, num=m["scan_num"])
+            for k in ("features", "records", "num"):
+                if k in one and isinstance(mod[k], str) and mod[k] != one[k] and one[k] == alt[k]:
+                    mod[k] = alt[k]
+                    bump(out, "x_repaired_branch", k)
+            if mod != one:
+                bad = [k for k in one if mod[k] != one[k]]
+                add_failure(out, "corr", f"extended model differs from the real db in {bad}", dict(case=case, q=q),
+                            {k: mod[k] for k in bad}, {k: one[k] for k in bad}, confirmed=False)
+            elif not isinstance(one["features"], str) and 0 < len(one["features"]) < nrec:
+                out["nontrivial"].add(("xq", kind, how, json.dumps(q, sort_keys=True), json.dumps(case["intent"])[:120]))
+    # GenBank record loading: the rows of gb in insertion order, names the loader makes up included
+    reqs, reals, cases = [], [], []
+    for i in range(ctx.budget(40, 300)):
+        how = ["gbdirect", "gbft"][i % 2]
+        case = build_case(rng, "genbank", how, rng.choice([1, 2, 3, 5, 8]))
+        db = build_db(case, scratch, f"ga{i}")
+        if how == "gbdirect":
+            calls = [dict(seqid=sid, new=(k == 0 or k % 2 == 0), feats=[c17_gb.model_feature(f) for f in fs]) for k, (sid, fs) in enumerate(case["groups"])]
+        else:
+            # one GenbankAnnotationDb instance per LOCUS record, whether the records are in one file or several
+            feats = case.get("feats")
+            calls = [dict(seqid=sid, new=True, feats=[c17_gb.model_feature(f) for f in fs]) for sid, fs in case["groups_ft"]]
+        reqs.append(("gbadd", dict(calls=calls)))
+        reals.append([_xc(_xrow(r)) for r in raw_rows(db, "gb")])
+        cases.append(case)
+    for case, real, rep in zip(cases, reals, ctx.driver.batch(reqs)):
+        out["evaluations"] += 1
+        mod = [_xc(r) for r in rep]
+        bump(out, "gbadd_rows_without_location", min(sum(1 for r in real if r[4] is None), 3))
+        if mod != real:
+            add_failure(out, "corr", "gbAddRecords model differs from the stored gb rows", dict(case=case), mod, real, confirmed=False)
+        elif real:
+            out["nontrivial"].add(("gbadd", json.dumps(case["intent"])[:200]))
+    # GenBank children / parent
+    reqs, reals, metas = [], [], []
+    for i in range(ctx.budget(10, 80)):
+        case = with_user_calls(rng, build_case(rng, "genbank", ["gbdirect", "gb", "gbft"][i % 3], rng.choice([2, 4, 6])), rng.choice([0, 2]))
+        db = build_db(case, scratch, f"fa{i}")
+        recs = [r for t in db.table_names for r in raw_rows(db, t)]
+        probes = c17_gb.gen_family_queries(rng, recs, 10)
+        real = []
+        for method, kw in probes:
+            fn = db.get_feature_children if method == "children" else db.get_feature_parent
+            real.append(_real_or_raise(lambda: srt(_xc(f, rec=False) for f in fn(**kw))))
+        reqs.append(("family", dict(db=xdb_json(db), probes=[dict(kw, method=m) for m, kw in probes])))
+        reals.append(real)
+        metas.append((case, probes))
+    for (case, probes), real, rep in zip(metas, reals, ctx.driver.batch(reqs)):
+        for pr, one, m in zip(probes, real, rep):
+            out["evaluations"] += 1
+            mod = m["res"] if isinstance(m["res"], str) else srt(_xc(r, rec=False) for r in m["res"])
+            if isinstance(mod, str) and mod != one and not isinstance(m["alt"], str) and one == srt(_xc(r, rec=False) for r in m["alt"]):
+                mod = one  # repaired branch of the open no-location finding
+            bump(out, "x_family", pr[0] + (":raises" if isinstance(one, str) else f":{min(len(one), 2)}"))
+            if mod != one:
+                add_failure(out, "corr", f"GenBank get_feature_{pr[0]} model differs from the real db", dict(case=case, probe=pr), mod, one, confirmed=False)
+            elif one and not isinstance(one, str):
+                out["nontrivial"].add(("family", json.dumps(pr, sort_keys=True), json.dumps(case["intent"])[:120]))
 
 
 def _model_q(q):
